@@ -9,7 +9,7 @@ class C15(Prop):
     id = 'C15'
     lean_modules = ['RSocketModel.Props.C15', 'RSocketModel.Props.C15Source']
     technique = 'Lean 4 proof (arithmetic over check/arrival times; echo in the engine model) + differential correspondence under a virtual clock'
-    level_text = ('c15_echo / c15_echo_engine, c15_periodic, c15_no_false_timeout(_gaps) and c15_detects (every period, lifetime, start offsets and arrival pattern) are kernel-checked on a '
+    level_text = ('c15_echo_matches_source (Props/C15Source.lean): the echo of the model is proved equal to RSocketBase.handle_keep_alive as compiled from rsocket_base.py on every run (RESPOND answered once with the same data and RESPOND cleared, last-keepalive time refreshed either way). c15_echo / c15_echo_engine, c15_periodic, c15_no_false_timeout(_gaps) and c15_detects (every period, lifetime, start offsets and arrival pattern) are kernel-checked on a '
                   'model of the keepalive tasks in integer milliseconds; the model is run against a real RSocketClient whose clock (asyncio time and datetime.now) is the harness\'s virtual clock.')
     level_note = ('Trusted: Lean kernel + standard axioms; asyncio.sleep/call_later under the deterministic loop; arrivals exactly at a check instant are excluded (asyncio tie-break); '
                   'behaviour after the first timeout is not compared.')
